@@ -52,6 +52,18 @@ CLAIMED = {
          'currently established differentially (oracle), the memory-safety clause by proof; API-level transparency is covered through C10.',
     technique='Coq proof (invariant over decoder loop) over hand model; translator-regenerated constants/align (tie A); differential correspondence + reference-decoder oracle (tie B)',
     design='6/C14'),
+ 'C18': dict(
+    text='Theorems over the model of the FeatureRef constructor and applyValToFeature/getFeatureVal: set succeeds iff v <= largest setting; every '
+         'accepted Feat table (any number of features, any maxima < 2^32) gets well-formed, pairwise DISJOINT bit fields; after a successful set the '
+         'feature reads back v and every other feature is unchanged for any vector contents (hence any operation history); failure produces nothing; '
+         'language 0 / unknown -> defaults, known -> its Sill vector, space- and zero-padded tags alike.  Tie A: storage limit, chunk width and the '
+         'width of m_index regenerated from the source.  Tie B: extracted model vs the real loaders (Face::readFeatures on a bare Face) and the gr_* API '
+         'on synthesised Feat/Sill/name tables with read-back of ALL features after every step, plus malformed tables; reference oracle in Python.',
+    note='Trusted: Coq kernel; gen_src; extraction + driver; harness impl_feat.cpp; Python generators/reference; ASan.  Labels (name table) are checked '
+         'by the oracle only.  One face only (map compatibility test not modelled); duplicate feature ids not generated (qsort order unspecified). '
+         'Two defects repaired by fix: commits (byte index aliasing; first name record).',
+    technique='Coq proof (bit-level field lemmas, allocation invariant by induction) over hand model; regenerated constants (tie A); differential correspondence with reference oracle (tie B)',
+    design='6/C18'),
  'C20': dict(
     text='Machine-checked theorems (Coq 8.16) over a model of gr_str_to_tag / gr_tag_to_str / zeropad for ALL C strings and ALL '
          '32-bit tags: value = big-endian of the first min(4,len) bytes, no read beyond the NUL (checked reads on the exact region), '
